@@ -17,6 +17,7 @@ import (
 	"net"
 	"os"
 	"strconv"
+	"strings"
 	"sync"
 	"sync/atomic"
 	"testing"
@@ -524,6 +525,10 @@ type vServer struct {
 	plans     sync.Map // id -> *vCallPlan
 	hangers   chan struct{}
 	entered   atomic.Int64
+	// the harness's own account of request memory: bytes of the request bodies currently inside handlers (a lower bound of what the server accounts)
+	held, heldHigh atomic.Int64
+	reqBuf         atomic.Int64 // RequestBufSize the server was started with (0: count body bytes only)
+	idGates        sync.Map // id -> chan struct{}: kind 6 requests wait for their own gate (and ignore the context)
 }
 
 func (s *vServer) handler(ctx context.Context, hctx *rpc.HandlerContext) error {
@@ -546,6 +551,18 @@ func (s *vServer) handler(ctx context.Context, hctx *rpc.HandlerContext) error {
 			}
 		}
 	}
+	hsz := int64(len(hctx.Request))
+	if rb := s.reqBuf.Load(); hsz < rb {
+		hsz = rb // the server accounts max(packet length, RequestBufSize) per request: that buffer is what the request occupies
+	}
+	hb := s.held.Add(hsz)
+	defer s.held.Add(-hsz)
+	for {
+		h := s.heldHigh.Load()
+		if hb <= h || s.heldHigh.CompareAndSwap(h, hb) {
+			break
+		}
+	}
 	if s.gate != nil {
 		select {
 		case <-s.gate:
@@ -559,6 +576,14 @@ func (s *vServer) handler(ctx context.Context, hctx *rpc.HandlerContext) error {
 	}
 	id := binary.LittleEndian.Uint64(req[4:])
 	kind := int(binary.LittleEndian.Uint32(req[12:]))
+	if kind == 6 {
+		if g, ok := s.idGates.Load(id); ok {
+			select {
+			case <-g.(chan struct{}):
+			case <-time.After(90 * time.Second):
+			}
+		}
+	}
 	var plan *vCallPlan
 	if p, ok := s.plans.Load(id); ok {
 		plan = p.(*vCallPlan)
@@ -1057,10 +1082,195 @@ func TestVerifC38(t *testing.T) {
 
 // ---------------------------------------------------------------- C39
 
+// vSaturate sends n gated calls from n clients to a server whose handlers block on srv.gate, waits until the number of
+// running handlers is stable, and returns the clients and a wait function (call after closing the gate)
+func vSaturate(srv *vServer, n int, idBase uint64) (clients []rpc.Client, wait func()) {
+	var wg sync.WaitGroup
+	clients = make([]rpc.Client, n)
+	for i := range clients {
+		clients[i] = rpc.NewClient(rpc.ClientWithLogf(rpc.NoopLogf))
+		wg.Add(1)
+		go func(i int) {
+			defer wg.Done()
+			req := clients[i].GetRequest()
+			req.Body = append(req.Body, vBody(idBase+uint64(i), 0, 2)...)
+			ctx, cancel := context.WithTimeout(context.Background(), 60*time.Second)
+			defer cancel()
+			resp, _ := clients[i].Do(ctx, "tcp4", srv.ln.Addr().String(), req)
+			if resp != nil {
+				clients[i].PutResponse(resp)
+			}
+		}(i)
+	}
+	last, stable := int64(-1), 0
+	for i := 0; i < 400 && stable < 30; i++ {
+		c := srv.cur.Load()
+		if c == last && c > 0 {
+			stable++
+		} else {
+			stable = 0
+		}
+		last = c
+		time.Sleep(5 * time.Millisecond)
+	}
+	return clients, wg.Wait
+}
+
+// vDisconnectWhileWaiting: request memory is exhausted by handlers that hold their requests; one connection has two requests inside handlers and a
+// third one waiting for memory when its client goes away; its two handlers then finish one after the other; new load arrives. The bytes of
+// request bodies inside handlers (the harness's own account, a lower bound of the server's) must stay within the limit throughout.
+func vDisconnectWhileWaiting(t *testing.T, st *vStats, seed int64, round int) {
+	srv := vStartServer(t, "tcp4", "", rpc.ServerWithMaxWorkers(64), rpc.ServerWithRequestMemoryLimit(1), rpc.ServerWithRequestBufSize(5<<19))
+	srv.reqBuf.Store(5 << 19) // 2.5 MiB per request: six fit into the 16 MiB floor
+	defer func() { _ = srv.srv.Close() }()
+	_, limit := srv.srv.RequestsMemory()
+	pad := 3 + round
+	base := uint64(seed)<<28 + uint64(round)<<20 + 0x60000
+	var next atomic.Uint64
+	var all []chan struct{}
+	var allMu sync.Mutex
+	var wg sync.WaitGroup
+	send := func(cl rpc.Client) (id uint64, gate chan struct{}) {
+		id = base + next.Add(1)
+		gate = make(chan struct{})
+		srv.idGates.Store(id, gate)
+		allMu.Lock()
+		all = append(all, gate)
+		allMu.Unlock()
+		wg.Add(1)
+		go func() {
+			defer wg.Done()
+			req := cl.GetRequest()
+			req.Body = append(req.Body, vBody(id, 6, pad)...)
+			ctx, cancel := context.WithTimeout(context.Background(), 100*time.Second)
+			defer cancel()
+			resp, _ := cl.Do(ctx, "tcp4", srv.ln.Addr().String(), req)
+			if resp != nil {
+				cl.PutResponse(resp)
+			}
+		}()
+		return id, gate
+	}
+	waitEntered := func(want int64, ms int) bool {
+		for i := 0; i < ms; i++ {
+			if srv.entered.Load() >= want {
+				return true
+			}
+			time.Sleep(time.Millisecond)
+		}
+		return srv.entered.Load() >= want
+	}
+	// connection x is a bare packet connection: its owner can announce a request (header only) and go away without any library help
+	rawx, err := net.Dial("tcp4", srv.ln.Addr().String())
+	if err != nil {
+		vEmit(map[string]any{"t": "inconclusive", "msg": "C39 disconnect scenario: dial failed: " + err.Error()})
+		return
+	}
+	x := rpc.NewPacketConn(rawx, 4096, 4096)
+	if err := x.HandshakeClient("", nil, false, 1, 0, 5*time.Second, rpc.LatestProtocolVersion); err != nil {
+		vEmit(map[string]any{"t": "inconclusive", "msg": "C39 disconnect scenario: handshake failed: " + err.Error()})
+		return
+	}
+	sendRaw := func() chan struct{} {
+		id := base + next.Add(1)
+		gate := make(chan struct{})
+		srv.idGates.Store(id, gate)
+		allMu.Lock()
+		all = append(all, gate)
+		allMu.Unlock()
+		body := binary.LittleEndian.AppendUint64(nil, id) // query id
+		body = append(body, vBody(id, 6, pad)...)
+		if err := x.WritePacket(rpctl.RpcInvokeReqHeader{}.TLTag(), body, 5*time.Second); err != nil {
+			vEmit(map[string]any{"t": "note", "msg": "C39 disconnect scenario: raw request not written: " + err.Error()})
+		}
+		return gate
+	}
+	y := rpc.NewClient(rpc.ClientWithLogf(rpc.NoopLogf))
+	z := rpc.NewClient(rpc.ClientWithLogf(rpc.NoopLogf))
+	defer func() { _ = y.Close(); _ = z.Close() }()
+	gx1 := sendRaw()
+	gx2 := sendRaw()
+	if !waitEntered(2, 5000) {
+		vEmit(map[string]any{"t": "inconclusive", "msg": "C39 disconnect scenario: the first two requests did not reach their handlers"})
+		return
+	}
+	// fill the rest of the memory from another connection until a request has to wait
+	for i := 0; i < 12; i++ {
+		before := srv.entered.Load()
+		send(y)
+		if !waitEntered(before+1, 500) {
+			break
+		}
+	}
+	enteredFull := srv.entered.Load()
+	if m, _ := srv.srv.RequestsMemory(); true {
+		vEmit(map[string]any{"t": "note", "msg": fmt.Sprintf("C39 disconnect scenario: %d handlers entered, server accounts %d of %d, own account %d", enteredFull, m, limit, srv.held.Load())})
+	}
+	// x announces one more request that needs more memory than its two earlier requests will free (header only): it waits in x's receive loop
+	if err := x.WritePacketHeaderUnlocked(rpctl.RpcInvokeReqHeader{}.TLTag(), 6<<20, 5*time.Second); err == nil {
+		_ = x.FlushUnlocked()
+	}
+	time.Sleep(200 * time.Millisecond)
+	trace := []string{}
+	mark := func(what string) {
+		m, _ := srv.srv.RequestsMemory()
+		trace = append(trace, fmt.Sprintf("%s: entered=%d running=%d accounted=%d own=%d", what, srv.entered.Load(), srv.cur.Load(), m, srv.held.Load()))
+	}
+	mark("memory full, big request waiting")
+	_ = x.Close() // the client goes away
+	time.Sleep(100 * time.Millisecond)
+	close(gx1)
+	time.Sleep(150 * time.Millisecond)
+	mark("first handler of the closed connection finished")
+	close(gx2)
+	time.Sleep(300 * time.Millisecond)
+	mark("second handler finished")
+	for i := 0; i < 8; i++ { // new load
+		send(z)
+	}
+	time.Sleep(700 * time.Millisecond)
+	mark("new load")
+	vEmit(map[string]any{"t": "note", "msg": "C39 disconnect scenario: " + strings.Join(trace, " | ")})
+	st.add("disconnect_scenarios", 1)
+	st.add("disconnect_scenario_handlers_entered", int(srv.entered.Load()))
+	st.dist(fmt.Sprintf("disconnect-while-waiting entered=%d", srv.entered.Load()))
+	if h := srv.heldHigh.Load(); h > limit {
+		st.violation("rpc-limits", "memory-own-account", fmt.Sprintf("client disconnect while a request waited for memory: request bodies inside handlers add up to %d bytes, the request memory limit is %d (the server reports %d)", h, limit, func() int64 { m, _ := srv.srv.RequestsMemory(); return m }()), map[string]any{"scenario": "disconnect-while-waiting", "round": round})
+	}
+	allMu.Lock()
+	for _, g := range all {
+		select {
+		case <-g:
+		default:
+			close(g)
+		}
+	}
+	allMu.Unlock()
+	wg.Wait()
+}
+
 func TestVerifC39(t *testing.T) {
 	seed := int64(vEnvInt("VERIF_SEED", 1))
 	rounds := vEnvInt("VERIF_N", 4)
 	st := newStats()
+	// a server whose workers are created now and then left idle beyond the pool's collection time (60 s) while the other rounds run;
+	// it is saturated again at the end of the test
+	idleW := 3
+	idle := vStartServer(t, "tcp4", "", rpc.ServerWithMaxWorkers(idleW))
+	idle.gate = make(chan struct{})
+	{
+		cls, wait := vSaturate(idle, idleW+4, uint64(seed)<<26+0x7000)
+		close(idle.gate)
+		wait()
+		for _, c := range cls {
+			_ = c.Close()
+		}
+	}
+	idleStart := time.Now()
+	idleHighBefore := idle.high.Load()
+	for round := 0; round < vEnvInt("VERIF_DISCONNECT", 2); round++ {
+		vDisconnectWhileWaiting(t, st, seed, round)
+	}
 	for round := 0; round < rounds; round++ {
 		r := rand.New(rand.NewSource(seed*77 + int64(round)))
 		W := 1 + r.Intn(5)
@@ -1069,6 +1279,7 @@ func TestVerifC39(t *testing.T) {
 			reqBuf = 64 << 10 // worker-bound rounds
 		}
 		srv := vStartServer(t, "tcp4", "", rpc.ServerWithMaxWorkers(W), rpc.ServerWithRequestMemoryLimit(1), rpc.ServerWithRequestBufSize(reqBuf))
+		srv.reqBuf.Store(int64(reqBuf))
 		srv.gate = make(chan struct{})
 		nClients := 2 + r.Intn(5)
 		nCalls := 8 + r.Intn(20)
@@ -1175,6 +1386,9 @@ func TestVerifC39(t *testing.T) {
 		}
 		if mm, l := maxMem.Load(), limit.Load(); l > 0 && mm > l {
 			st.violation("rpc-limits", "memory", fmt.Sprintf("sampled request memory %d exceeded the limit %d", mm, l), nil)
+		}
+		if hh, l := srv.heldHigh.Load(), limit.Load(); l > 0 && hh > l {
+			st.violation("rpc-limits", "memory-own-account", fmt.Sprintf("requests inside handlers occupied %d bytes (max(body, RequestBufSize) each), the request memory limit is %d", hh, l), nil)
 		}
 		if mm, l := srv.memHigh.Load(), srv.memLimit.Load(); l > 0 && mm > l {
 			st.violation("rpc-limits", "memory", fmt.Sprintf("request memory seen by a handler %d exceeded the limit %d", mm, l), nil)
@@ -1375,6 +1589,30 @@ func TestVerifC39(t *testing.T) {
 		}
 		_ = srv.srv.Close()
 	}
+	// the idle server: after its workers have been collected, saturating load must still be limited to the configured number of workers
+	if wait := 68*time.Second - time.Since(idleStart); wait > 0 && vEnvInt("VERIF_IDLE", 1) != 0 {
+		time.Sleep(wait)
+	}
+	if vEnvInt("VERIF_IDLE", 1) != 0 {
+		idle.gate = make(chan struct{})
+		idle.high.Store(0)
+		cls, wait := vSaturate(idle, 3*idleW+3, uint64(seed)<<26+0x7100)
+		time.Sleep(300 * time.Millisecond)
+		st.add("idle_rounds", 1)
+		st.dist(fmt.Sprintf("idle %ds W=%d", int(time.Since(idleStart).Seconds()), idleW))
+		if h := idle.high.Load(); h > int64(idleW) {
+			st.violation("rpc-limits", "workers", fmt.Sprintf("after %d s without requests (idle workers collected) %d handlers ran concurrently with a worker limit of %d (%d before the idle period)", int(time.Since(idleStart).Seconds()), h, idleW, idleHighBefore), map[string]any{"scenario": "idle-collection", "W": idleW})
+		}
+		if cur, total := idle.srv.WorkersPoolSize(); cur > total {
+			st.violation("rpc-limits", "workers", fmt.Sprintf("after the idle period the worker pool reports %d workers created with a limit of %d", cur, total), nil)
+		}
+		close(idle.gate)
+		wait()
+		for _, c := range cls {
+			_ = c.Close()
+		}
+	}
+	_ = idle.srv.Close()
 	st.done("rpc-limits")
 }
 
